@@ -86,10 +86,150 @@ def checked_index_term(prog, body, sl, t):
     return None
 
 
-def r1_rules(rep, prog):
+ELEMENT_ACCESSORS = ("::<T, D>::get", "::<T, D>::get_mut", "::<T, D>::to_index_strict", "::<T, D>::to_index_checked")
+
+
+def element_accessors(prog):
+    """[(body, kind)] of the accessors that address ONE element by (x, y): get / get_mut (None outside), the Index<Pos> / IndexMut<Pos>
+    impls and to_index_strict (panic outside), to_index_checked (None outside)"""
+    out = []
+    for pth, b in sorted(prog.bodies.items()):
+        if "{closure" in pth or "util::buf::inner::Inner" not in pth:
+            continue
+        if pth.endswith(INNER + "::<T, D>::get") or pth.endswith(INNER + "::<T, D>::get_mut"):
+            out.append((b, "option-ref"))
+        elif pth.endswith(INNER + "::<T, D>::to_index_checked"):
+            out.append((b, "option-index"))
+        elif pth.endswith(INNER + "::<T, D>::to_index_strict"):
+            out.append((b, "panic-index"))
+        elif ("Index<Pos>" in pth or "IndexMut<Pos>" in pth) and pth.endswith(("::index", "::index_mut")):
+            out.append((b, "panic-ref"))
+    return out
+
+
+def element_rules(rep, prog):
+    """R1-E / R5 by interpretation: each element accessor is run with symbolic x, y, width, height, stride and a backing slice of symbolic
+    length in the four scenarios (x < w?) x (y < h?). In range it touches exactly data[y * stride + x] (resp. returns that index) and
+    hands back that cell; out of range it touches nothing and returns None / panics. However the bounds test and the index maths are
+    distributed over helpers, closures, `?`, match or bool::then."""
+    from . import symalg as S, absint as A
+    from fractions import Fraction
+    cfg = prog.config
+    accs = element_accessors(prog)
+    rep.floor("C11.R1.element_accessors.%s" % cfg, len([1 for _b, k_ in accs if k_.endswith("-ref")]), 4, "element accessors of Inner (get, get_mut, Index<Pos>, IndexMut<Pos>; the private to_index_strict / to_index_checked where they exist)")
+    decided = set()
+    adt = prog.adt(INNER)
+    names = adt["variants"][0]["fields"]
+    PT = "retrofire_core::math::point::Point"
+    want_idx = {("stride", "y"): Fraction(1), ("x",): Fraction(1)}
+    for b, kind in accs:
+        bad = []
+        for in_x in (True, False):
+            for in_y in (True, False):
+                touched = []
+
+                def orc(op, a_, b_, in_x=in_x, in_y=in_y):
+                    if S.sym("len") in (a_, b_):
+                        return True          # the computed index against the backing length: Inner::new's invariant (R3), not this rule's
+                    for p_, q_, flip in ((a_, b_, False), (b_, a_, True)):
+                        for var, dim, inr in ((S.sym("x"), S.sym("w"), in_x), (S.sym("y"), S.sym("h"), in_y)):
+                            if p_ == var and q_ == dim:
+                                res = {"Lt": inr, "Ge": not inr, "Le": inr, "Gt": not inr, "Eq": False, "Ne": True}
+                                if flip:
+                                    res = {"Gt": inr, "Le": not inr, "Ge": inr, "Lt": not inr, "Eq": False, "Ne": True}
+                                return res.get(op)
+                    return None
+
+                def m_data_index(it, args, c, d, touched=touched):
+                    r0 = A.deref_all(it, args[0])
+                    if not (isinstance(r0, tuple) and r0[0] == "symvec"):
+                        return NotImplemented
+                    touched.append(A.deref_all(it, args[1]))
+                    return ("ref-cell", len(touched) - 1)
+                cell = A.Frame(None)
+                me = {"dims": ("tuple", [S.sym("w"), S.sym("h")]), "stride": S.sym("stride"), "data": ("symvec", "len"), "_pd": ("adt", "core::marker::PhantomData", "PhantomData", [])}
+                cell.locals[0] = ("adt", INNER, "Inner", [me.get(f, A.UNKNOWN) for f in names])
+                def cell_of(v_):
+                    """the backing cell a returned reference designates: ('ref-cell', k) from the Index model, or a place reference data[<index>]"""
+                    if isinstance(v_, tuple) and v_[0] == "ref-cell":
+                        return touched[v_[1]]
+                    while isinstance(v_, tuple) and v_[0] == "ref":
+                        if v_[3] and isinstance(v_[3][-1], dict) and "si" in v_[3][-1]:
+                            return v_[3][-1]["si"]
+                        nxt = it.load_ref(v_)
+                        if not (isinstance(nxt, tuple) and nxt[0] == "ref"):
+                            return None
+                        v_ = nxt
+                    return None
+                it = S.interp(prog, oracle=orc, models={"core::ops::index::Index::index": m_data_index, "core::ops::index::IndexMut::index_mut": m_data_index,
+                                                        "ops::index::Index<": m_data_index, "ops::index::IndexMut<": m_data_index})
+                args = [("ref", cell, 0, [])]
+                if kind.endswith("-index"):
+                    args += [S.sym("x"), S.sym("y")]
+                else:
+                    args += [("adt", PT, "Point", [("array", [S.sym("x"), S.sym("y")]), ("tuple", [])])]
+                it.index_hook = lambda v_, i_: touched.append(i_)
+                try:
+                    r = it.call_body(b, args, env={})
+                    if not (isinstance(r, tuple) and r[0] == "ref" and r[3] and isinstance(r[3][-1], dict) and "si" in r[3][-1]):
+                        r = A.deref_all(it, r) if not (isinstance(r, tuple) and r[0] == "ref") else r
+                    outcome = "returns"
+                except A.Panic:
+                    outcome, r = "panics", None
+                except A.Undecided as e:
+                    raise common.Infra("C11.R1: %s could not be interpreted for x %s w, y %s h (%s)" % (b.path.split("inner::")[-1], "<" if in_x else ">=", "<" if in_y else ">=", e))
+                inside = in_x and in_y
+                tag = "x %s w, y %s h" % ("<" if in_x else ">=", "<" if in_y else ">=")
+
+                def is_idx(v):
+                    try:
+                        return S.to_poly(strip_casts(v)) == want_idx
+                    except S.NotPolynomial:
+                        return False
+                if inside:
+                    if outcome != "returns":
+                        bad.append("%s: panics for an in-range position" % tag)
+                    elif kind.endswith("-ref"):
+                        val = r[3][0] if kind == "option-ref" and isinstance(r, tuple) and r[0] == "adt" and r[2] == "Some" else (r if kind == "panic-ref" else None)
+                        cidx = cell_of(val)
+                        if not (cidx is not None and is_idx(cidx) and all(is_idx(t_) for t_ in touched)):
+                            bad.append("%s: touches data[%s] and returns %s instead of the cell data[y * stride + x]" % (tag, [str(strip_casts(t_))[:60] for t_ in touched], str(r)[:40]))
+                    else:
+                        val = r[3][0] if kind == "option-index" and isinstance(r, tuple) and r[0] == "adt" and r[2] == "Some" else (r if kind == "panic-index" else None)
+                        if not (val is not None and is_idx(A.deref_all(it, val)) and not touched):
+                            bad.append("%s: yields %s instead of the index y * stride + x" % (tag, str(r)[:80]))
+                else:
+                    if touched:
+                        bad.append("%s: the backing store is touched (data[%s]) for a position outside the view" % (tag, str(strip_casts(touched[0]))[:60]))
+                    if kind.startswith("option") and not (outcome == "returns" and isinstance(r, tuple) and r[0] == "adt" and r[2] == "None"):
+                        bad.append("%s: %s instead of returning None" % (tag, outcome if outcome == "panics" else "returns " + str(r)[:40]))
+                    if kind.startswith("panic") and outcome != "panics":
+                        bad.append("%s: returns %s instead of panicking" % (tag, str(r)[:40]))
+        short = b.path.split("util::buf::")[-1]
+        rep.inst("C11.R1", "%s in the four (x ? w, y ? h) scenarios: in range exactly data[y*stride + x], out of range nothing: %s" % (short, not bad), config=cfg)
+        if bad:
+            rep.violate("C11.R1", "R1|element|%s" % b.path, b.where(), "%s: %s" % (short, bad[0]), config=cfg)
+        else:
+            decided.add(b.path)
+    return decided
+
+
+def strip_casts(v):
+    if isinstance(v, tuple) and v and v[0] == "symop" and (v[1].startswith("cast:") or v[1].startswith("f2i:")):
+        return strip_casts(v[2])
+    if isinstance(v, tuple) and v and v[0] == "symop":
+        return (v[0], v[1]) + tuple(strip_casts(x) if isinstance(x, tuple) else x for x in v[2:])
+    return v
+
+
+def r1_rules(rep, prog, decided=()):
     cfg = prog.config
     n = {"I": 0, "R": 0, "L": 0, "A": 0, "W": 0, "plumbing": 0}
     for b in inner_bodies(prog):
+        # element accessors (and their closures) are decided by interpretation (element_rules); the provenance rule covers the rest
+        if any(b.path == d_ or b.path.startswith(d_ + "::{closure") for d_ in decided):
+            n["I"] += 1
+            continue
         sl = T.Slicer(b)
         bind_data_upvars(prog, b, sl)
         short = b.path.replace("retrofire_core::", "")
@@ -227,6 +367,15 @@ def whole_store_ok(prog, b, sl, bi, t, meth):
             sides = (T.strip(d[2], refs=True, casts=True), T.strip(d[3], refs=True, casts=True))
             if any(x[0] == "call" and x[1].split(" => ")[0].endswith("<impl [T]>::len") and has_data(x) for x in sides):
                 return True, "guarded by an exact data.len() == extent check"
+    # the same, path-sensitively: the check may have been evaluated into a flag first (`let covers = a && b; if !covers {..} else {HERE}`)
+    fa = b.facts_at(bi)
+    for (cb_, si_), truth in (fa or {}).items():
+        st_ = b.blocks[cb_]["stmts"][si_]
+        d = sl.rvalue(st_["rv"], 0, ())
+        if d[0] == "bin" and d[1] == "Eq" and truth:
+            sides = (T.strip(d[2], refs=True, casts=True), T.strip(d[3], refs=True, casts=True))
+            if any(x[0] == "call" and x[1].split(" => ")[0].endswith("<impl [T]>::len") and has_data(x) for x in sides):
+                return True, "guarded by an exact data.len() == extent check (held in a flag)"
     guard = [T.show(d)[:60] + ("" if tk else " (false)") for d, tk in conds]
     return False, "guarded only by %s" % (guard or "nothing")
 
@@ -262,43 +411,67 @@ def r3_rules(rep, prog):
         if b.path != INNER + "::<T, D>::new":
             rep.violate("C11.R3", "R3|ctor|%s" % b.path, b.where(bi, si), "Inner{..} is built outside the validating constructor Inner::new", config=cfg)
             continue
-        sl = T.Slicer(b)
-        atoms = [
-            (lambda x: T.strip(x, refs=True) == ("field", ("param", 1), "0"), "w"),
-            (lambda x: T.strip(x, refs=True) == ("field", ("param", 1), "1"), "h"),
-            (lambda x: T.strip(x, refs=True) == ("param", 2), "stride"),
-            (lambda x: x[0] == "call" and x[1].split(" => ")[0].endswith("<impl [T]>::len"), "len"),
-        ]
-        from . import panics as P
-        conds = P.dominating_conditions(b, sl, bi)
-        # conditions that hold on EVERY path to the aggregate are those whose one side dominates it
-        have_w = False
-        for d, taken in conds:
-            if d[0] == "bin" and d[1] == "Le" and taken:
-                a, c = PL.poly(T.strip(d[2], refs=True), atoms), PL.poly(T.strip(d[3], refs=True), atoms)
-                if a == {("w",): 1} and c == {("stride",): 1}:
-                    have_w = True
-        # size check: the aggregate is reachable only via (size <= len true) or (h > 0 false)
-        bsl = sl
-        size_edges = []
-        for sb, tr, fa in G.bool_edges(b, bsl, lambda d: d[0] == "bin" and d[1] in ("Le", "Gt", "Eq", "Ne", "Lt", "Ge")):
-            d, _n = G.strip_not(bsl.operand(b.term(sb)["discr"]))
-            a, c = PL.poly(T.strip(d[2], refs=True), atoms), PL.poly(T.strip(d[3], refs=True), atoms)
-            size = PL.padd(PL.pmul({("h",): 1, (): -1}, {("stride",): 1}), {("w",): 1})
-            if d[1] == "Le" and a == size and c == {("len",): 1}:
-                size_edges += tr
-            elif d[1] == "Ge" and c == size and a == {("len",): 1}:
-                size_edges += tr
-            elif d[1] == "Gt" and a == {("h",): 1} and c in ({}, {(): 0}):
-                size_edges += fa
-            elif d[1] == "Eq" and a == {("h",): 1} and c in ({}, {(): 0}):
-                size_edges += tr
-        have_size = bool(size_edges) and G.guarded_by(b, bi, size_edges)
-        rep.inst("C11.R3", "Inner::new: construction dominated by w <= stride: %s; by (h-1)*stride + w <= len or h == 0: %s" % (have_w, have_size), config=cfg)
+        # Inner::new's contract by path enumeration: the constructor is interpreted on symbolic (w, h), stride and a backing slice of symbolic
+        # length; every comparison forks. On each path that RETURNS, the decisions taken must include (or be stronger than)
+        #     w <= stride        and        h == 0  or  (h - 1) * stride + w <= len
+        # in whatever form the checks are written (nested ifs, checked_sub + if let, extra assertions)
+        from . import symalg as S, absint as A
+        from fractions import Fraction
+
+        def run_new(o):
+            it = S.interp(prog, oracle=o)
+            try:
+                it.call_body(b, [("tuple", [S.sym("w"), S.sym("h")]), S.sym("stride"), ("symvec", "len")], env={})
+                return "returns"
+            except A.Panic:
+                return "panics"
+        try:
+            paths = S.explore(run_new, max_paths=512)
+        except A.Undecided as e:
+            raise common.Infra("C11.R3: Inner::new could not be interpreted (%s)" % e)
+
+        def le0(op, x, y, ans):
+            """the decision as a list of polynomials known to be <= 0 (integers)"""
+            try:
+                px, py = S.to_poly(strip_casts(x)), S.to_poly(strip_casts(y))
+            except S.NotPolynomial:
+                return []
+            d = PL.padd(px, {m: -c for m, c in py.items()})          # x - y
+            nd = {m: -c for m, c in d.items()}
+            one = {(): Fraction(1)}
+            if not ans:
+                op = {"Le": "Gt", "Lt": "Ge", "Gt": "Le", "Ge": "Lt", "Eq": "Ne", "Ne": "Eq"}[op]
+            return {"Le": [d], "Lt": [PL.padd(d, one)], "Ge": [nd], "Gt": [PL.padd(nd, one)], "Eq": [d, nd], "Ne": []}[op]
+
+        def implied(want, known):
+            """want <= 0 follows from some known p <= 0 with p - want a non-negative constant"""
+            for p_ in known:
+                diff = PL.padd(p_, {m: -c for m, c in want.items()})
+                if set(diff) <= {()} and diff.get((), 0) >= 0:
+                    return True
+            return False
+        c_w = {("w",): Fraction(1), ("stride",): Fraction(-1)}
+        c_h0 = {("h",): Fraction(1)}
+        c_size = {("h", "stride"): Fraction(1), ("stride",): Fraction(-1), ("w",): Fraction(1), ("len",): Fraction(-1)}
+        n_ret, bad_w, bad_size = 0, None, None
+        for trace, outcome in paths:
+            if outcome != "returns":
+                continue
+            n_ret += 1
+            known = []
+            for op, x, y, ans in trace:
+                known += le0(op, x, y, ans)
+            if not implied(c_w, known) and bad_w is None:
+                bad_w = S.fmt_trace(trace)[:200]
+            if not (implied(c_h0, known) or implied(c_size, known)) and bad_size is None:
+                bad_size = S.fmt_trace(trace)[:200]
+        have_w, have_size = bad_w is None and n_ret > 0, bad_size is None and n_ret > 0
+        rep.inst("C11.R3", "Inner::new over %d paths (%d returning): every returning path has decided w <= stride: %s; h == 0 or (h-1)*stride + w <= len: %s"
+                 % (len(paths), n_ret, have_w, have_size), config=cfg)
         if not have_w:
-            rep.violate("C11.R3", "R3|width-check", b.where(bi, si), "Inner::new can construct a view whose width exceeds its stride", config=cfg)
+            rep.violate("C11.R3", "R3|width-check", b.where(bi, si), "Inner::new can construct a view whose width exceeds its stride (returning path: %s)" % (bad_w or "none returns"), config=cfg)
         if not have_size:
-            rep.violate("C11.R3", "R3|size-check", b.where(bi, si), "Inner::new can construct a view whose last row extends past the backing data", config=cfg)
+            rep.violate("C11.R3", "R3|size-check", b.where(bi, si), "Inner::new can construct a view whose last row extends past the backing data (returning path: %s)" % (bad_size or "none returns"), config=cfg)
     # wrappers
     for adt in ("Buf2", "Slice2", "MutSlice2"):
         full = BUFMOD + adt
@@ -348,11 +521,19 @@ def r4_r5_rules(rep, prog):
     for c in callers:
         # the two checked wrappers (the function itself or a closure of it); that to_index_checked calls it for in-range coordinates only
         # is decided by the interpretation below
+        dec_ = prog.__dict__.get("_c11_decided", set())
+        if any(c == d_ or c.startswith(d_ + "::{closure") for d_ in dec_):
+            continue            # an element accessor whose in-range-only use of the index maths is decided by interpretation (element_rules)
         if not any(c == r_ or c.startswith(r_ + "::{closure") for r_ in allowed_roots):
             rep.violate("C11.R5", "R5|%s" % c, prog.bodies[c].where(), "%s calls the unchecked index maths to_index directly" % c, config=cfg)
     # to_index_checked by abstract interpretation over the orderings of (x ? w) and (y ? h)
     from . import absint as A
-    tc = prog.body(INNER + "::<T, D>::to_index_checked")
+    tc = prog.bodies.get(INNER + "::<T, D>::to_index_checked")
+    if tc is None:
+        rep.notes.append("C11.R5: this tree has no separate to_index_checked (the bounds test is written in the accessors): every element accessor's "
+                         "in-range-only use of the index maths is decided by interpretation under R1 (element_rules)")
+        rep.inst("C11.R5", "to_index_checked: not present as a function; see R1 element accessors", config=cfg)
+        return
     adt = prog.adt(INNER)
     names = adt["variants"][0]["fields"]
     table = {}
@@ -449,7 +630,12 @@ def r6_rules(rep, prog):
 
 
 def check_config(rep, prog):
-    for g in (r1_rules, r2_rules, r3_rules, r4_r5_rules, r6_rules):
+    decided = rep.guard(element_rules, rep, prog)
+    if not isinstance(decided, set):
+        decided = set()
+    prog.__dict__["_c11_decided"] = decided
+    rep.guard(r1_rules, rep, prog, decided)
+    for g in (r2_rules, r3_rules, r4_r5_rules, r6_rules):
         rep.guard(g, rep, prog)
 
 
